@@ -203,6 +203,8 @@ prop("C13", "fault_enumeration",
      "Trusted: synctest quiescence as the definition of 'still blocked'; the state confirmation through the simulated "
      "cluster. An unbatched call blocked inside net.Conn.Write cannot observe its context and is not generated.",
      [
+         {"test": "TestC13_AdminCancellation", "quick": {"checks": 500, "shards": 4, "timeout": 300},
+          "thorough": {"checks": 5000, "shards": 8, "timeout": 1500}},
          {"test": "TestC13_Cancellation", "quick": {"checks": 6000, "shards": 4, "timeout": 300},
           "thorough": {"checks": 60000, "shards": 16, "timeout": 2400}},
          {"test": "TestC13_ScanOpenScanner", "quick": {"checks": 2000, "shards": 4, "timeout": 300},
